@@ -12,8 +12,8 @@ WITNESSES = {'all': ['not-succeeds', 'not-fails', 'node-level', 'parsed-not', 'h
 OPTS = {'quick': {'selfcheck_mod': 60, 'budget_s': 280}, 'thorough': {'selfcheck_mod': 600, 'budget_s': 3000}}
 STEP_LIMIT = 1_500_000
 BOUNDS = {
-    'quick': 'G in {p($X), q($X), q(a), r($X, $Y), (p($X), q($X)), (q($X) ; r($X, $Y)), $X = b, $X = $Y, $X == b, $X < 3, eq($X, c), a call of an undefined predicate}; not(G) placed first, in the middle and last in '
-             'conjunctions of up to 3 goals with backtracking neighbours p($X), q($X), r($X, $Y), and in one disjunction shape; answers compared with the reference; at node level: '
+    'quick': 'G in {p($X), q($X), q(a), r($X, $Y), (p($X), q($X)), (q($X) ; r($X, $Y)), $X = b, $X = $Y, $X == b, $X < 3, eq($X, c), a call of an undefined predicate, and four G that bind a variable and then fail}; not(G) placed first, in the middle and last in '
+             'conjunctions of up to 3 goals with backtracking neighbours p($X), q($X), r($X, $Y), and in one disjunction shape; 24 bodies in which a successful not(...) is followed by calls of facts that have variables of their own; answers compared with the reference; at node level: '
              'a Not node is built for each G under substitutions that bind $X to a, b, c or nothing, asked three times: at most one success, the returned substitution set equals the input, '
              'and success iff the reference finds no answer for G; `not(p($X))` also through parse_subgoal',
     'thorough': 'neighbours also n($X), member; not inside both alternatives of a disjunction; doubly nested not',
@@ -22,7 +22,9 @@ OUTSIDE = 'cut or time inside not(...)'
 ASSUMPTIONS = []
 
 GS = [gc('p', X), gc('q', X), gc('q', A('a')), gc('r', X, Y), AND(gc('p', X), gc('q', X)), OR(gc('q', X), gc('r', X, Y)), U(X, A('b')), U(X, Y),
-      gb('equal', X, A('b')), gb('less_than', X, I(3)), gc('eq', X, A('c')), gc('nosuch', X), AND(gc('nosuch', X), gc('p', X))]
+      gb('equal', X, A('b')), gb('less_than', X, I(3)), gc('eq', X, A('c')), gc('nosuch', X), AND(gc('nosuch', X), gc('p', X)),
+      # G binds something and then fails: not(G) succeeds and must leave no trace of those bindings
+      AND(U(X, I(1)), gb('fail')), AND(gc('p', X), gb('equal', X, A('zz'))), AND(gc('r', X, Y), gc('nosuch', Y)), OR(AND(U(X, A('b')), gb('fail')), AND(gc('q', X), gb('fail')))]
 NB = [gc('p', X), gc('q', X), gc('r', X, Y)]
 
 
@@ -41,6 +43,11 @@ def cases(tier, seed):
                 add(AND(a, n, b)); add(AND(n, a, b)); add(AND(a, b, n))
         if tier != 'quick':
             add(NOT(n)); add(OR(AND(n, NB[0]), AND(NB[1], n)))
+    # after a successful not(...): goals that fetch clauses with variables of their own, and variables that are still unbound
+    W = V('W')
+    for n in (NOT(gc('q', I(1))), NOT(gc('nosuch', X)), NOT(AND(U(Y, I(1)), gb('fail')))):
+        for rest in (AND(gc('pr', Y, Z, W), U(X, W)), AND(gc('h', Y), gc('eq', X, Y)), AND(gc('pr', Y, Z, W), gc('eq', Z, A('k')), U(X, W)), AND(gc('eq', Y, Z), gc('h', Z), U(X, Y))):
+            add(AND(n, *rest[1])); add(AND(gc('eq', Y, Y), n, *rest[1]))
     for gi, g in enumerate(GS):
         for bind in (None, 'a', 'b', 'c'):
             out.append({'id': 'node not(%s) with $X = %s' % (P.gtext(g), bind), 'fam': 'node', 'g': gi, 'bind': bind})
